@@ -111,7 +111,7 @@ class HandlerLog(object):
     """Handlers generated per command record what they were given, then do
     what ``behaviour(command_full_name, args, io)`` prescribes."""
 
-    STYLES = ("instance", "factory", "callback", "method")
+    STYLES = ("instance", "factory", "callback", "method", "partial", "class", "bound-factory")
 
     def __init__(self):
         self.calls = []
@@ -120,9 +120,10 @@ class HandlerLog(object):
         self.styles = {}
 
     def install(self, cfg, node, full_name):
-        """Gives the command its handler in one of the four ways the library supports, in rotation: a handler
-        object, a callable returning one (called at each access), a CallbackHandler around a plain function
-        (which is not given the command), and a handler object with a configured method name."""
+        """Gives the command its handler in one of the ways the library supports, in rotation: a handler object, a
+        callable returning one (a lambda, a functools.partial of the handler class, the handler class itself, a bound
+        method - called at each access), a CallbackHandler around a plain function (which is not given the command),
+        and a handler object with a configured method name."""
         log = self
 
         class Named(object):
@@ -160,6 +161,25 @@ class HandlerLog(object):
             from clikit.handler.callback_handler import CallbackHandler
 
             cfg.set_handler(CallbackHandler(lambda args, io: record(args, io, named)))
+        elif style == "partial":
+            import functools
+
+            class HD(object):
+                def __init__(self, dependency):
+                    self.dependency = dependency
+
+                def handle(self, args, io, command):
+                    return record(args, io, command)
+
+            cfg.set_handler(functools.partial(HD, "a dependency"))
+        elif style == "class":
+            cfg.set_handler(H)  # the class itself is the factory
+        elif style == "bound-factory":
+            class Factory(object):
+                def make(self):
+                    return H()
+
+            cfg.set_handler(Factory().make)
         else:
             cfg.set_handler(M())
             cfg.set_handler_method("execute")
@@ -204,14 +224,23 @@ def configure_command(cfg, node, api, log, prefix=""):
     if node.get("help"):
         cfg.set_help(node["help"])
     k = node["kind"]
+    _ROTATION[0] += 1
+    roundabout = _ROTATION[0] % 3 == 0  # reach the same final marking through an earlier, different one
     if k == "default":
+        if roundabout:
+            cfg.anonymous()
         cfg.default()
     elif k == "anon":
+        if roundabout:
+            cfg.default()
         cfg.anonymous()
     elif k == "hidden":
         cfg.hide()
     elif k == "disabled":
         cfg.disable()
+    elif roundabout:
+        cfg.anonymous()
+        cfg.default(False)
     for a in node["args"]:
         fl = (Argument.REQUIRED if a["kind"] == "req" else Argument.OPTIONAL) | (Argument.MULTI_VALUED if a["multi"] else 0)
         cfg.add_argument(a["name"], fl, a["desc"] if a["desc"] != "" else None, a["default"])
